@@ -544,6 +544,9 @@ class Stage:
                     raise Exception("You attempted to set the value of a non-parameter. Did you mean ocp.set_initial()? Got " + str(parameter))
                 self._param_vals[parameter] = value
         for_all_primitives(parameter, value, action, "First argument to set_value must be a parameter or a simple concatenation of parameters", rhs_type=DM)
+        if self.master is not None and self.master.is_transcribed:
+            # guesses may be expressions of parameters (and the horizon may be one)
+            self.master._reapply_initial()
 
 
     def set_initial(self, var, value, priority=True):
@@ -605,15 +608,18 @@ class Stage:
                 self._initial.move_to_end(var, last=False)
         for_all_primitives(var, value, action, "First argument to set_initial must be a variable/signal or a simple concatenation of variables/signals")
         if self.master is not None and self.master.is_transcribed:
-            # Guesses are expressions of time and of other guesses (also of other stages, e.g. a shared horizon variable),
-            # and localized time grids have guesses of their own: re-evaluate all of them, as a transcription does
-            master_method = self.master._method
-            opti = master_method.opti if hasattr(master_method, 'opti') else master_method
-            for s in self.master.iter_stages(include_self=True):
-                if hasattr(s._method, 'apply_initial'):
-                    s._method.apply_initial(s._augmented, opti, s._initial)
-                else:
-                    s._method.set_initial(s._augmented, master_method, s._initial)
+            self.master._reapply_initial()
+
+    def _reapply_initial(self):
+        # Guesses are expressions of time, of parameter values and of other guesses (also of other stages, e.g. a shared
+        # horizon variable), and localized time grids have guesses of their own: re-evaluate all of them, as a transcription does
+        master_method = self._method
+        opti = master_method.opti if hasattr(master_method, 'opti') else master_method
+        for s in self.iter_stages(include_self=True):
+            if hasattr(s._method, 'apply_initial'):
+                s._method.apply_initial(s._augmented, opti, s._initial)
+            else:
+                s._method.set_initial(s._augmented, master_method, s._initial)
 
     def set_der(self, state, der, scale=1):
         r"""Assign a right-hand side to a state derivative
